@@ -234,7 +234,7 @@ def gen():
     for name, mod, props, is_will in SETS:
         # ---------------- decode_async
         w("@fn %s::{%s}::decode_async" % (mod, name))
-        w("@props C01 C03 C04 C06 C07 C11 C12 C14 C20")
+        w("@props C01 C03 C04 C06 C07 C08 C11 C12 C14 C20")
         w("@attr #[verifier::rlimit(1200)]")
         w("@attr #[verifier::spinoff_prover]")
         w("@ensures")
@@ -298,7 +298,7 @@ def gen():
         w("")
         # ---------------- encode
         w("@fn %s::encode" % ipath)
-        w("@props C01 C02 C09 C10 C14")
+        w("@props C01 C02 C09 C10 C11 C14")
         if name == "ConnackProperties":
             w("@trusted NOT PROVED: with 16 optional properties the single Verus query for this function exceeds the usable solver resource cap (rlimit ~1400, > 300 s); the contract is assumed. Its encode_len, its decoder and the 13 other (same macro-generated shape) encoders are proved.")
         w("@attr #[verifier::rlimit(1200)]")
@@ -353,7 +353,7 @@ def gen():
         w("")
         # ---------------- encode_len
         w("@fn %s::encode_len" % ipath)
-        w("@props C02")
+        w("@props C01 C02 C09 C10 C11")
         w("@attr #[verifier::rlimit(1200)]")
         w("@attr #[verifier::spinoff_prover]")
         w("@entry")
